@@ -9,7 +9,7 @@ use crate::{
     core::SerializableType,
     runtime::{
         RuntimeError, RuntimeResult, TypeSystemError,
-        context::{ThreadContext, TransactionLogger},
+        context::{StatementWrite, ThreadContext, TransactionLogger},
         eval::ExpressionEvaluator,
         validator::ConstraintValidator,
     },
@@ -194,6 +194,10 @@ impl DmlExecutor {
         // Log the insert operation
         self.logger
             .log_insert(table_id, row_id.value(), Box::from(&tuple))?;
+        self.ctx.note_statement_write(StatementWrite::Inserted {
+            table: table_id,
+            row: row_id.value(),
+        });
 
         // The row belongs to this transaction's write set
         self.ctx.record_write(table_id, row_id.value())?;
@@ -341,6 +345,12 @@ impl DmlExecutor {
             Box::from(&tuple),
             Box::from(&updated_tuple),
         )?;
+        self.ctx.note_statement_write(StatementWrite::Rewritten {
+            table: table_id,
+            row: row_id.value(),
+            before: Box::from(&tuple),
+            after: Box::from(&updated_tuple),
+        });
 
         // The row belongs to this transaction's write set
         self.ctx.record_write(table_id, row_id.value())?;
@@ -359,6 +369,49 @@ impl DmlExecutor {
         )?;
 
         Ok(UpdateResult { updated: true })
+    }
+
+    /// Takes back what the statement that just failed has written (a statement of a session: the
+    /// transaction stays open, and without this the rows processed before the failure would stay and be
+    /// committed with it). Newest write first: a row the statement inserted gets this transaction's own
+    /// delete mark (nobody ever sees it, its index entries are marked like any deleted row's), a tuple an
+    /// UPDATE rewrote gets its previous bytes back (an UPDATE leaves the indexes as they were). Both are
+    /// logged, so that redo ends where this ends. What only this statement added to the write set is
+    /// taken out again. A DELETE has no failing step after its first row and is not recorded.
+    pub(crate) fn undo_statement(&mut self) -> RuntimeResult<()> {
+        let Some(journal) = self.ctx.take_statement_journal() else {
+            return Ok(());
+        };
+        for write in journal.writes.into_iter().rev() {
+            match write {
+                StatementWrite::Inserted { table, row } => {
+                    self.delete(table, &UInt64::from(row))?;
+                }
+                StatementWrite::Rewritten {
+                    table,
+                    row,
+                    before,
+                    after,
+                } => {
+                    let snapshot = self.ctx.snapshot();
+                    let tree_builder = self.ctx.tree_builder();
+                    let relation = self
+                        .ctx
+                        .catalog()
+                        .get_relation(table, &tree_builder, &snapshot)?;
+                    let schema = relation.schema().clone();
+                    let root = relation.root();
+                    let previous = Tuple::from_slice_unchecked(&before)?;
+                    self.logger.log_update(table, row, after, before)?;
+                    let mut btree = self.ctx.build_tree_mut(root);
+                    btree.update(root, previous, &schema)?;
+                }
+            }
+        }
+        // The undo itself ran under the same journal: nothing of it is to be kept.
+        let _ = self.ctx.take_statement_journal();
+        self.ctx.forget_writes(&journal.new_entries);
+        Ok(())
     }
 
     /// Deletes a row identified by its row ID.
